@@ -31,6 +31,7 @@ REGISTRY = {
     "C19": ("auverif.props.c19", "run"),
     "C14": ("auverif.props.c14", "run"),
     "C15": ("auverif.props.c15", "run"),
+    "C16": ("auverif.props.c16", "run"),
 }
 
 
